@@ -1,6 +1,7 @@
 //! C06: the Markdown parser (`src/parsers/markdown.rs` + `line_parser.rs`) against the Lean model
 //! (`md` op), plus direct oracles: expected tests known by construction for AST-generated
-//! documents (and for every line-prefix of them), structural sanity of every result, crash.
+//! documents (for documents that end in an unterminated construct of each kind, and for every
+//! line-prefix of generated documents), structural sanity of every result, crash.
 use crate::common::*;
 use scrut::config::{DocumentConfig, TestCaseConfig};
 use scrut::expectation::ExpectationMaker;
@@ -416,6 +417,70 @@ pub fn gen_doc(rng: &mut Rng, leak_free: bool) -> Vec<Item> {
     items
 }
 
+const FRONT: &[&[&str]] = &[&[], &["total_timeout: 5m"], &["defaults:", "  timeout: 9s"], &["defaults: {keep_crlf: false}", "", "shell: /bin/sh"]];
+
+/// A document of the grammar of `C06_wellformed_tail`: complete well-formed items followed by one
+/// unterminated construct. kind 0: front-matter without closing `---` (only front-matter while no
+/// content has started: blank lines and one closed front-matter may precede it), 1: foreign block,
+/// 2: scrut block without command, 3: scrut block with a command - each without closing fence.
+pub fn gen_tail_doc(rng: &mut Rng, kind: u64) -> Vec<Item> {
+    let mut items;
+    if kind == 0 {
+        items = vec![];
+        for _ in 0..rng.range(0, 2) {
+            items.push(Item::Blank);
+        }
+        if rng.chance(1, 3) {
+            items.push(Item::FrontMatter(rng.pick(FRONT).iter().map(|l| l.to_string()).collect(), true));
+            for _ in 0..rng.range(0, 1) {
+                items.push(Item::Blank);
+            }
+        }
+        let mut fm: Vec<String> = rng.pick(FRONT).iter().map(|l| l.to_string()).collect();
+        if rng.chance(1, 8) {
+            // not a document configuration: the expected result is the error
+            fm.push("defaults: [".into());
+        }
+        if rng.chance(1, 6) {
+            // the document ends in blank lines
+            fm.push(String::new());
+        }
+        items.push(Item::FrontMatter(fm, false));
+        return items;
+    }
+    items = if rng.chance(1, 6) { vec![] } else { gen_doc(rng, true) };
+    match kind {
+        1 => {
+            let ticks = if rng.chance(1, 3) { rng.range(4, 6) } else { 3 };
+            let fence = "`".repeat(ticks);
+            let body = (0..rng.range(0, 4)).map(|_| rng.pick(BODY).to_string()).filter(|l| !l.starts_with(&fence)).collect();
+            items.push(Item::Verbatim { ticks, info: rng.pick(INFO).to_string(), body, closed: false });
+        }
+        2 => {
+            let mut b = gen_block(rng, false);
+            b.after.clear();
+            b.closed = false;
+            items.push(Item::Scrut(b));
+        }
+        _ => {
+            let mut b = gen_block(rng, true);
+            b.closed = false;
+            items.push(Item::Scrut(b));
+        }
+    }
+    items
+}
+
+/// which construct the document leaves open at its end
+fn tail_kind(items: &[Item]) -> &'static str {
+    match items.last() {
+        Some(Item::FrontMatter(_, false)) => "open-front-matter",
+        Some(Item::Verbatim { closed: false, .. }) => "open-foreign",
+        Some(Item::Scrut(b)) if !b.closed => if b.cmd.is_empty() { "open-scrut-no-command" } else { "open-scrut-command" },
+        _ => "none",
+    }
+}
+
 pub fn render_items(items: &[Item]) -> Vec<String> {
     let mut out = vec![];
     for it in items {
@@ -512,14 +577,19 @@ pub fn expected(items: &[Item], doc: &DocumentConfig) -> Vec<RTest> {
     tests
 }
 
-/// None: the front-matter text is not a document configuration (an error is the expected result)
+/// None: a front-matter text is not a document configuration (an error is the expected result).
+/// Several front-matters (only possible while no content has started, e.g. a closed one followed by
+/// an unterminated one) override each other in order.
 fn expected_doc(items: &[Item]) -> Option<DocumentConfig> {
+    let mut doc = DocumentConfig::default_markdown();
     for it in items {
         if let Item::FrontMatter(ls, _) = it {
-            return doc_cfg_value(&ls.join("\n")).1;
+            let text = ls.join("\n");
+            let parsed = guarded(|| serde_yaml::from_str::<DocumentConfig>(&text).ok()).unwrap_or(None)?;
+            doc = doc.with_overrides_from(&parsed);
         }
     }
-    Some(DocumentConfig::default_markdown())
+    Some(doc)
 }
 
 fn compare(class: &str, what: &str, items: &[Item], real: &Real) -> Vec<(String, String)> {
@@ -690,6 +760,24 @@ pub fn run(ctx: &Ctx, prop: &str) {
         }
         Some(case_with(prop, &text, real, extra, tags))
     });
+    // 1b. the grammar of `C06_wellformed_tail`: well-formed items, then one unterminated construct of
+    //     each kind; the expected result is known by construction (the open construct counts like a
+    //     closed one, an open block with a command yields its test)
+    let n = if ctx.thorough { 200_000 } else { 12_000 };
+    ctx.run_stream("ast-open-tail", n, false, |idx| {
+        let mut rng = Rng::fork(seed, 64, idx);
+        let items = gen_tail_doc(&mut rng, idx % 4);
+        let crlf = rng.chance(1, 4);
+        let final_nl = rng.chance(1, 2);
+        let text = join_doc(&render_items(&items), crlf, final_nl);
+        let real = real_parse(&text);
+        let extra = compare("C06:open-tail", "document that ends in an unterminated construct", &items, &real);
+        let tags = vec![format!("tail={}", tail_kind(&items)), format!("tail-tests-expected={}", match expected_doc(&items) {
+            Some(d) => expected(&items, &d).len().min(3).to_string(),
+            None => "error".to_string(),
+        })];
+        Some(case_with(prop, &text, real, extra, tags))
+    });
     // 2. every line-prefix of generated documents: complete tests before the cut are all there,
     //    the cut construct is read to the end of the document
     let n = if ctx.thorough { 60_000 } else { 4_000 };
@@ -706,7 +794,7 @@ pub fn run(ctx: &Ctx, prop: &str) {
         let text = join_doc(&lines[..k], crlf, k % 2 == 0);
         let real = real_parse(&text);
         let extra = compare("C06:silent-drop", "document cut after a line", &cut, &real);
-        Some(case_with(prop, &text, real, extra, vec!["prefix".into()]))
+        Some(case_with(prop, &text, real, extra, vec!["prefix".into(), format!("prefix-tail={}", tail_kind(&cut))]))
     });
     // 3. malformed: one fence line dropped / a character-level cut / leaking blocks. No expected
     //    value: correspondence + structural oracles
